@@ -92,7 +92,11 @@ def rule_ladders(ctx):
             ctx.violation("C12.b", "transforms_merge", "_create_merge_candidates", f"CASE indices {cand_idx}", m.path,
                           f"the candidate CASE uses clause indices {cand_idx} for {n} clauses; each WHEN clause needs its own index in order")
         # C12.g the helper carries every source column the mutation statements read
-        sel = txt[txt.upper().find("SELECT"):txt.upper().find("CASE")] if "CASE" in txt.upper() else ""
+        up = txt.upper()
+        i0, i1 = up.find("SELECT"), up.rfind(" FROM ")
+        sel = txt[i0:i1] if 0 <= i0 < i1 else txt
+        # the CASE that computes merge_op reads source columns in place; what the later statements can use is what is selected beside it
+        sel = re.sub(r"\bCASE\b.*?\bEND\b(\s+AS\s+\w+)?", " ", sel, flags=re.I | re.S)
         carried = set(re.findall(r"[A-Za-z_][A-Za-z_0-9]*", sel))
         for i, need in enumerate(SOURCE_VALUES):
             missing = sorted(need - carried)
